@@ -291,3 +291,93 @@ def round_ref(x, base, direction):
     else:
         k = round(q)  # banker's, like numpy
     return k * Fraction(base)
+
+
+# -------------------------------------------------------------------------- units
+class _UF:
+    def __init__(self, keys):
+        self.p = {k: k for k in keys}
+
+    def find(self, x):
+        while self.p[x] != x:
+            self.p[x] = self.p[self.p[x]]
+            x = self.p[x]
+        return x
+
+    def union(self, a, b):
+        self.p[self.find(a)] = self.find(b)
+
+    def labels(self, keys):
+        return [self.find(k) for k in keys]
+
+
+def units_ref(p_id, hh_id, alter, ehepartner, einstandspartner, e1, e2, gemeinsam_veranlagt, eigenbedarf):
+    """Order-free, set-based construction of the derived units straight from their
+    definitions.  All arguments are python lists in the same (arbitrary) row order.
+    Returns dict level -> list of labels (one per row) and `invalid` (reason or None) when the
+    definitions give no unique partition for this structure."""
+    n = len(p_id)
+    pos = {p: i for i, p in enumerate(p_id)}
+    invalid = None
+    has_children = {p: False for p in p_id}
+    for i in range(n):
+        for q in (e1[i], e2[i]):
+            if q >= 0:
+                has_children[q] = True
+    out = {}
+    # marriage unit, Einstandsgemeinschaft
+    for name, ptr in (("ehe", ehepartner), ("eg", einstandspartner)):
+        uf = _UF(p_id)
+        for i in range(n):
+            if ptr[i] >= 0:
+                if ptr[pos[ptr[i]]] != p_id[i]:
+                    invalid = f"{name}: partner pointers not symmetric"
+                uf.union(p_id[i], ptr[i])
+        out[name] = uf.labels(p_id)
+    # tax unit: spouses iff both are flagged jointly assessed
+    uf = _UF(p_id)
+    for i in range(n):
+        j = ehepartner[i]
+        if j >= 0 and gemeinsam_veranlagt[i] and gemeinsam_veranlagt[pos[j]]:
+            uf.union(p_id[i], j)
+    out["sn"] = uf.labels(p_id)
+    # Familiengemeinschaft
+    uf = _UF(p_id)
+    for i in range(n):
+        if einstandspartner[i] >= 0:
+            uf.union(p_id[i], einstandspartner[i])
+    couple_of = {p: uf.find(p) for p in p_id}
+    fg_child = [False] * n
+    for i in range(n):
+        if alter[i] < 25 and not has_children[p_id[i]]:
+            elig = {couple_of[q] for q in (e1[i], e2[i]) if q >= 0 and hh_id[pos[q]] == hh_id[i]}
+            if len(elig) > 1:
+                invalid = "child eligible for two different couples in one household"
+            if elig:
+                fg_child[i] = True
+                if einstandspartner[i] >= 0:
+                    invalid = "a partner is also an FG-eligible child of a co-resident parent"
+    uf2 = _UF(p_id)
+    for i in range(n):
+        if einstandspartner[i] >= 0:
+            uf2.union(p_id[i], einstandspartner[i])
+    for i in range(n):
+        if fg_child[i]:
+            for q in (e1[i], e2[i]):
+                if q >= 0 and hh_id[pos[q]] == hh_id[i]:
+                    uf2.union(p_id[i], q)
+    out["fg"] = uf2.labels(p_id)
+    # Bedarfsgemeinschaft: FG minus each child covering its own needs
+    bg = []
+    for i in range(n):
+        if fg_child[i] and eigenbedarf[i] and alter[i] < 25:
+            bg.append(("own", p_id[i]))
+        else:
+            bg.append(("fg", out["fg"][i]))
+        if eigenbedarf[i] and alter[i] < 25 and not fg_child[i]:
+            # the flag is only meaningful for children of a unit
+            if any(out["fg"][k] == out["fg"][i] for k in range(n) if k != i):
+                invalid = "eigenbedarf_gedeckt set for a person under 25 who is not a child of the unit"
+    out["bg"] = bg
+    out["fg_child"] = fg_child
+    return out, invalid
